@@ -102,8 +102,7 @@ def run(ctx):
     uom = U.calls_in(ucfg, 'update_on_match')
     ok = False
     for nn, cc in uom:
-        ok = any(isinstance(t, ast.expr) and norm(t) == 'query_filter' and
-                 pol for (t, pol, _g) in ucfg.guards(nn))
+        ok = U.guarded(ucfg, nn, 'query_filter', True)
     spec = [x for x in own_nodes(uf.node) if isinstance(x, ast.Call) and
             U.call_name(x) == 'CronTrigger' and
             any(k.arg is None and dotted(k.value) == 'query_filter'
@@ -123,6 +122,17 @@ def run(ctx):
              'update_on_match on the row id / report 0 when it lost',
              ctx.loc(uf))
     df = prog.func(DB + '.delete_cron_trigger')
+    got = [x for x in own_nodes(df.node) if isinstance(x, ast.Assign) and
+           isinstance(x.value, ast.Call) and
+           U.call_name(x.value) == 'get_cron_trigger' and x.value.args and
+           norm(x.value.args[0]) == df.params[0]]
+    row = dotted(got[0].targets[0]) if got else '?'
+    r2.check(any(isinstance(x, ast.Return) and 'rowcount' in norm(x.value)
+                 for x in own_nodes(df.node)) and
+             U.phas(df.node, '___.delete().where(___.c.id == %s.id)' % row),
+             ctx.construct(df, extra='deletes exactly the row that was read'),
+             'delete_cron_trigger does not delete "id == id of the row '
+             'that was read and access-checked"', ctx.loc(df))
     r2.check(any(isinstance(x, ast.Return) and 'rowcount' in norm(x.value)
                  for x in own_nodes(df.node)),
              ctx.construct(df, extra='returns affected rows'),
@@ -154,7 +164,8 @@ def run(ctx):
     for x in dec:
         sn = cfg.stmt_node(x)
         okd = isinstance(x.op, ast.Sub) and norm(x.value) == '1' and \
-            U.guarded(cfg, sn, 't.remaining_executions > 0', True)
+            U.guarded(cfg, sn, 't.remaining_executions > 0', True) and \
+            U.guarded(cfg, sn, 't.remaining_executions is None', False)
     r3.check(okd and len(dec) == 1,
              ctx.construct(ad, extra='decrement only when > 0'),
              'remaining_executions is not decremented by one exactly when '
